@@ -29,6 +29,13 @@ OPS_METHODS = {'add': 'Add', 'sub': 'Sub', 'mul': 'Mul', 'div': 'Div', 'rem': 'R
                'bitxor': 'BitXor', 'shl': 'Shl', 'shr': 'Shr'}
 
 
+class CharSetPattern(Exception):
+    """a [char; N] / &[char] pattern: any of the listed chars"""
+
+    def __init__(self, alts):
+        self.alts = alts
+
+
 class Models:
     def __init__(self):
         self.extra = {}
@@ -38,6 +45,10 @@ class Models:
             return self.extra[name]
         if name in EXACT:
             return EXACT[name]
+        # the same item is spelled core:: or std:: depending on where it is re-exported
+        for a_, b_ in (('std::', 'core::'), ('core::', 'std::'), ('alloc::', 'std::')):
+            if name.startswith(a_) and (b_ + name[len(a_):]) in EXACT:
+                return EXACT[b_ + name[len(a_):]]
         m = re.match(r'<(.*) as (.*)>::(\w+)$', name)
         if m:
             ty, trait, meth = m.group(1), m.group(2), m.group(3)
@@ -175,6 +186,8 @@ def bytes_eq(xs, ys):
 
 def as_bytes(v):
     v = deref(v)
+    if isinstance(v, Enum) and v.ty == 'Cow':
+        return as_bytes(v.fields[0])
     if isinstance(v, StrRef):
         return v.bytes()
     if isinstance(v, StringObj):
@@ -184,6 +197,8 @@ def as_bytes(v):
 
 def as_str(v):
     v = deref(v)
+    if isinstance(v, Enum) and v.ty == 'Cow':
+        return as_str(v.fields[0])
     if isinstance(v, StrRef):
         return v
     if isinstance(v, StringObj):
@@ -261,6 +276,8 @@ def generic_deref(I, a):
         return Ref(Slot(v.cell, 0))
     if isinstance(v, (StrRef, SliceRef)):
         return v
+    if isinstance(v, Enum) and v.ty == 'Cow':
+        return generic_deref(I, [v.fields[0]])
     if isinstance(v, Agg) and len(v) == 2 and isinstance(v[0], Agg) and len(v[0]) == 1 and isinstance(v[0][0], Ref):
         return v[0][0]  # Box
     raise Unsupported('deref/as_ref of ' + type(v).__name__)
@@ -406,6 +423,8 @@ def _(I, a):
 
 def range_bounds(r, n):
     """(lo, hi) of a Range / RangeFrom / RangeTo / RangeFull / RangeInclusive aggregate"""
+    if isinstance(r, FnItem) and r.path.endswith('RangeFull'):
+        return 0, n
     ty = getattr(r, 'ty', None) or ''
     if ty.endswith('RangeFrom'):
         return r[0], n
@@ -462,19 +481,49 @@ def str_eq_z(x, y):
 @model('core::str::<impl str>::starts_with')
 def _(I, a):
     s = as_str(a[0])
-    p = pattern_bytes(a[1])
-    if len(p) > len(s):
-        return False
-    return bytes_eq(s.buf[s.start:s.start + len(p)], p)
+    return match_at(I, s, s.start, pattern_of(a[1])) is not None
 
 
 @model('core::str::<impl str>::ends_with')
 def _(I, a):
     s = as_str(a[0])
-    p = pattern_bytes(a[1])
-    if len(p) > len(s):
-        return False
-    return bytes_eq(s.buf[s.end - len(p):s.end], p)
+    return match_at(I, s, s.end, pattern_of(a[1]), backwards=True) is not None
+
+
+def pattern_of(p):
+    """('alts', [byte lists]) for &str / String / char / [char; N] / &[char];  ('pred', closure) for FnMut(char) -> bool"""
+    q = deref(p)
+    if isinstance(q, (Closure, FnItem)):
+        return ('pred', q)
+    if isinstance(q, (Agg, SliceRef, VecObj)) and not isinstance(q, (StrRef,)):
+        lst, st, en = as_list(q)
+        return ('alts', [encode_char(x) for x in lst[st:en]])
+    return ('alts', [pattern_bytes(p)])
+
+
+def match_at(I, s, off, pat, backwards=False):
+    """length of a match of pat that starts at absolute offset off (or ends there if backwards), else None; forks"""
+    if pat[0] == 'alts':
+        for alt in pat[1]:
+            n = len(alt)
+            if n == 0:
+                return 0
+            if backwards:
+                if off - n >= s.start and I.branch(bytes_eq(s.buf[off - n:off], alt)):
+                    return n
+            elif off + n <= s.end and I.branch(bytes_eq(s.buf[off:off + n], alt)):
+                return n
+        return None
+    if backwards:
+        if off <= s.start:
+            return None
+        st = char_start_before(I, s, off)
+        c, w = decode_at(I, s, st)
+    else:
+        if off >= s.end:
+            return None
+        c, w = decode_at(I, s, off)
+    return w if I.branch(I.call_closure(pat[1], [c])) else None
 
 
 def pattern_bytes(p):
@@ -528,10 +577,12 @@ def _(I, a):
 @model('core::str::<impl str>::trim_start_matches')
 def _(I, a):
     s = as_str(a[0])
-    p = pattern_bytes(a[1])
-    n = len(p)
+    pat = pattern_of(a[1])
     st = s.start
-    while n > 0 and st + n <= s.end and I.branch(bytes_eq(s.buf[st:st + n], p)):
+    while st < s.end:
+        n = match_at(I, StrRef(s.buf, st, s.end), st, pat)
+        if not n:
+            break
         st += n
     return StrRef(s.buf, st, s.end)
 
@@ -539,10 +590,12 @@ def _(I, a):
 @model('core::str::<impl str>::trim_end_matches')
 def _(I, a):
     s = as_str(a[0])
-    p = pattern_bytes(a[1])
-    n = len(p)
+    pat = pattern_of(a[1])
     en = s.end
-    while n > 0 and en - n >= s.start and I.branch(bytes_eq(s.buf[en - n:en], p)):
+    while en > s.start:
+        n = match_at(I, StrRef(s.buf, s.start, en), en, pat, backwards=True)
+        if not n:
+            break
         en -= n
     return StrRef(s.buf, s.start, en)
 
@@ -550,21 +603,15 @@ def _(I, a):
 @model('core::str::<impl str>::strip_prefix')
 def _(I, a):
     s = as_str(a[0])
-    p = pattern_bytes(a[1])
-    n = len(p)
-    if n <= len(s) and I.branch(bytes_eq(s.buf[s.start:s.start + n], p)):
-        return some(StrRef(s.buf, s.start + n, s.end))
-    return NONE()
+    n = match_at(I, s, s.start, pattern_of(a[1]))
+    return NONE() if n is None else some(StrRef(s.buf, s.start + n, s.end))
 
 
 @model('core::str::<impl str>::strip_suffix')
 def _(I, a):
     s = as_str(a[0])
-    p = pattern_bytes(a[1])
-    n = len(p)
-    if n <= len(s) and I.branch(bytes_eq(s.buf[s.end - n:s.end], p)):
-        return some(StrRef(s.buf, s.start, s.end - n))
-    return NONE()
+    n = match_at(I, s, s.end, pattern_of(a[1]), backwards=True)
+    return NONE() if n is None else some(StrRef(s.buf, s.start, s.end - n))
 
 
 def is_ws_char(I, c):
@@ -938,6 +985,8 @@ def into_iter(I, a):
         ty = v.ty or ''
         if ty.endswith('RangeInclusive'):
             return Iter('range', pos=v[0], end=v[1] + 1)
+        if ty.endswith('RangeFrom'):
+            return Iter('range', pos=v[0], end=1 << 64)
         if ty.endswith('Range') or (len(v) == 2 and all(isinstance(x, int) for x in v)):
             return Iter('range', pos=v[0], end=v[1])
         return Iter('into_iter', lst=list(v), pos=0, end=len(v))
@@ -950,6 +999,15 @@ def into_iter(I, a):
             return d
         if isinstance(d, SetObj):
             return Iter('slice_iter', lst=d.items, pos=0, end=len(d.items))
+        if isinstance(d, Agg):
+            ty = d.ty or ''
+            if 'Range' in ty or (len(d) == 2 and all(isinstance(x, int) for x in d)):
+                # `for x in &mut range` / by_ref: iterate the range in place
+                it = into_iter(I, [d])
+                return it
+            return Iter('slice_iter', lst=d, pos=0, end=len(d))
+        if isinstance(d, Enum) and d.ty == 'Option':
+            return Iter('slice_iter', lst=d.fields, pos=0, end=len(d.fields))
     if isinstance(v, SliceRef):
         lst, st, en = as_list(v)
         return Iter('slice_iter', lst=lst, pos=st, end=en)
@@ -1076,6 +1134,39 @@ def it_next(I, it):
             if x is None:
                 return None
             it.cur = as_iter(I, I.call_closure(it.f, [x]) if it.f is not None else x)
+    if k == 'scan':
+        if it.done:
+            return None
+        v = it_next(I, it.inner)
+        if v is None:
+            return None
+        r = I.call_closure(it.f, [Ref(Slot(it.state, 0)), v])
+        if r.variant == 'None':
+            it.done = True
+            return None
+        return r.fields[0]
+    if k == 'from_fn':
+        if it.done:
+            return None
+        r = I.call_closure(it.f, [])
+        if r.variant == 'None':
+            return None
+        return r.fields[0]
+    if k == 'repeat':
+        return clone_val(it.v)
+    if k == 'drain':
+        if it.pos >= it.end:
+            return None
+        it.pos += 1
+        return it.items[it.pos - 1]
+    if k == 'matches':
+        r = find_from(I, StrRef(it.s.buf, it.pos, it.end), it.pat, it.pos)
+        if r is None:
+            it.pos = it.end
+            return None
+        it.pos = r + max(1, len(it.pat))
+        m_ = StrRef(it.s.buf, r, r + len(it.pat))
+        return Agg([r - it.s.start, m_]) if it.indices else m_
     if k == 'inspect':
         v = it_next(I, it.inner)
         if v is not None:
@@ -1446,6 +1537,39 @@ def _(I, a):
     return Iter('map_while', inner=as_iter(I, a[0]), f=a[1], done=False)
 
 
+@itermethod('scan')
+def _(I, a):
+    return Iter('scan', inner=as_iter(I, a[0]), state=[a[1]], f=a[2], done=False)
+
+
+@itermethod('try_fold')
+def _(I, a):
+    it, acc, clo = as_iter(I, a[0]), a[1], a[2]
+    from mirparse import match_close, split_top
+    kind = None
+    k0 = I.cur_func.find('try_fold::<')
+    if k0 >= 0:
+        j = match_close(I.cur_func, k0 + len('try_fold::'))
+        parts_ = split_top(I.cur_func[k0 + len('try_fold::<'):j])
+        for nm in ('Option', 'Result', 'ControlFlow'):
+            if parts_ and parts_[-1].split('<')[0].endswith('::' + nm):
+                kind = nm
+    while True:
+        v = it_next(I, it)
+        if v is None:
+            if kind == 'Option':
+                return some(acc)
+            if kind == 'Result':
+                return ok(acc)
+            if kind == 'ControlFlow':
+                return Enum('ControlFlow', 'Continue', [acc])
+            raise Unsupported('try_fold result type')
+        r = I.call_closure(clo, [acc, v])
+        if r.variant in ('None', 'Err', 'Break'):
+            return r
+        acc = r.fields[0]
+
+
 @itermethod('cloned', 'copied')
 def _(I, a):
     return Iter('cloned', inner=as_iter(I, a[0]))
@@ -1454,6 +1578,147 @@ def _(I, a):
 @itermethod('peekable')
 def _(I, a):
     return Iter('peekable', inner=as_iter(I, a[0]), peeked=None)
+
+
+@model('std::iter::Peekable::next_if')
+def _(I, a):
+    it = deref(a[0])
+    if it.peeked is None:
+        it.peeked = [it_next(I, it.inner)]
+    v = it.peeked[0]
+    if v is None:
+        return NONE()
+    if I.branch(I.call_closure(a[1], [Ref(Slot(it.peeked, 0))])):
+        it.peeked = None
+        return some(v)
+    return NONE()
+
+
+@model('std::iter::from_fn')
+def _(I, a):
+    return Iter('from_fn', f=a[0], done=False)
+
+
+@model('std::iter::repeat')
+def _(I, a):
+    return Iter('repeat', v=a[0])
+
+
+@model('core::str::<impl str>::matches')
+def _(I, a):
+    s = as_str(a[0])
+    return Iter('matches', s=s, pos=s.start, end=s.end, pat=pattern_bytes(a[1]), indices=False)
+
+
+@model('core::str::<impl str>::match_indices')
+def _(I, a):
+    s = as_str(a[0])
+    return Iter('matches', s=s, pos=s.start, end=s.end, pat=pattern_bytes(a[1]), indices=True)
+
+
+@model('std::str::Chars::as_str')
+def _(I, a):
+    it = deref(a[0])
+    return StrRef(it.s.buf, it.pos, it.end)
+
+
+@model('std::str::CharIndices::as_str')
+def _(I, a):
+    it = deref(a[0])
+    return StrRef(it.s.buf, it.pos, it.end)
+
+
+@model('std::vec::Vec::dedup_by')
+def _(I, a):
+    v = deref(a[0])
+    items = v.items
+    if not items:
+        return Agg()
+    out = [items[0]]
+    for x in items[1:]:
+        cell_new, cell_prev = [x], [out[-1]]
+        same_ = I.branch(I.call_closure(a[1], [Ref(Slot(cell_new, 0)), Ref(Slot(out, len(out) - 1))]))
+        if not same_:
+            out.append(cell_new[0])
+    v.items[:] = out
+    return Agg()
+
+
+@model('std::vec::Vec::drain')
+def _(I, a):
+    v = deref(a[0])
+    lo, hi = range_bounds(a[1], len(v.items))
+    if lo > hi or hi > len(v.items):
+        raise RustPanic('drain range out of bounds')
+    taken = v.items[lo:hi]
+    del v.items[lo:hi]
+    return Iter('drain', items=taken, pos=0, end=len(taken))
+
+
+@model('core::slice::<impl [T]>::split_first')
+def _(I, a):
+    lst, st, en = as_list(a[0])
+    if en == st:
+        return NONE()
+    return some(Agg([Ref(Slot(lst, st)), SliceRef(lst, st + 1, en)]))
+
+
+@model('core::slice::<impl [T]>::split_last')
+def _(I, a):
+    lst, st, en = as_list(a[0])
+    if en == st:
+        return NONE()
+    return some(Agg([Ref(Slot(lst, en - 1)), SliceRef(lst, st, en - 1)]))
+
+
+@model('core::slice::<impl [T]>::split_at', 'core::str::<impl str>::split_at')
+def _(I, a):
+    d = deref(a[0])
+    if isinstance(d, (StrRef, StringObj)):
+        s = as_str(d)
+        return Agg([str_slice(I, s, 0, a[1]), str_slice(I, s, a[1], len(s))])
+    lst, st, en = as_list(d)
+    if a[1] > en - st:
+        raise RustPanic('mid > len')
+    return Agg([SliceRef(lst, st, st + a[1]), SliceRef(lst, st + a[1], en)])
+
+
+@model('core::bool::<impl bool>::then_some')
+def _(I, a):
+    return some(a[1]) if I.branch(a[0]) else NONE()
+
+
+@model('core::bool::<impl bool>::then')
+def _(I, a):
+    return some(I.call_closure(a[1], [])) if I.branch(a[0]) else NONE()
+
+
+@model('std::result::Result::is_ok_and')
+def _(I, a):
+    r = a[0]
+    return False if r.variant == 'Err' else I.call_closure(a[1], [r.fields[0]])
+
+
+@model('std::result::Result::is_err_and')
+def _(I, a):
+    r = a[0]
+    return False if r.variant == 'Ok' else I.call_closure(a[1], [r.fields[0]])
+
+
+@model('std::result::Result::or')
+def _(I, a):
+    return a[0] if a[0].variant == 'Ok' else a[1]
+
+
+@model('std::result::Result::unwrap_or_default', 'std::result::Result::unwrap_or_else')
+def _(I, a):
+    r = a[0]
+    if r.variant == 'Ok':
+        return r.fields[0]
+    if 'unwrap_or_else' in I.cur_func:
+        return I.call_closure(a[1], [r.fields[0]])
+    m = re.search(r'Result::<(.*?),', I.cur_func)
+    return default_val(I, strip_generics(m.group(1)) if m else 'usize')
 
 
 @model('std::iter::Peekable::peek')
